@@ -32,14 +32,14 @@ type result struct {
 }
 
 type spec struct {
-	Seed     int64 `json:"seed"`
-	G        int   `json:"goroutines"`
-	K        int   `json:"keys"`
-	Ops      int   `json:"ops_per_goroutine"`
-	KeyKind  int   `json:"key_kind"` // 0 string, 1 pointer, 2 int
-	Rendez   bool  `json:"rendezvous_get_inside_f"`
-	Nested   bool  `json:"nested_do"`
-	SlowF    bool  `json:"slow_f"`
+	Seed    int64 `json:"seed"`
+	G       int   `json:"goroutines"`
+	K       int   `json:"keys"`
+	Ops     int   `json:"ops_per_goroutine"`
+	KeyKind int   `json:"key_kind"` // 0 string, 1 pointer, 2 int
+	Rendez  bool  `json:"rendezvous_get_inside_f"`
+	Nested  bool  `json:"nested_do"`
+	SlowF   bool  `json:"slow_f"`
 	// NilKeys: bit k set = the genuine result of f(key k) is nil (testscript caches the error of an
 	// executable lookup this way: nil is the common answer). Computed once all the same.
 	NilKeys int `json:"keys_whose_result_is_nil"`
